@@ -13,6 +13,7 @@ import SkNet.Lemmas.Reorder
 import SkNet.Lemmas.MergeW
 import SkNet.Lemmas.DasguptaInit
 import SkNet.Lemmas.DasguptaDef
+import SkNet.Lemmas.DasguptaRelabel
 
 namespace SkNet.C08
 open SkNet SkNet.Dendro SkNet.Cut
@@ -793,7 +794,51 @@ example : dasguptaDefCost false true 3 [[0, 2, 1], [2, 0, 3], [1, 3, 0]]
       ([⟨1, 2, 1, 2⟩, ⟨3, 0, 2, 3⟩] : Dendro Nat) = 5 / 2 := by
   refine ⟨by decide +kernel, by decide +kernel⟩
 
+/-- **Dasgupta's cost and score do not depend on the numbering of the nodes** (`dasgupta_relabel_invariant`; the
+    Dasgupta clause of C02). `π`, `πinv` are inverse permutations of the `n` nodes; the renumbered graph has entry
+    `(i, j)` equal to the old entry `(πinv i, πinv j)` (`relabelMat`), the renumbered dendrogram has its leaf ids
+    mapped by `π` and keeps its internal ids, heights and sizes (`relabelDendro`). For every square non-negative
+    matrix with positive total weight and every valid dendrogram over its `n ≥ 2` nodes: the renumbered dendrogram is
+    valid, and `dasgupta_cost` (uniform = sizes and degree = volumes weightings, normalised or not) and
+    `dasgupta_score` return the same value on the renumbered input. -/
+theorem dasgupta_relabel_invariant {n : Nat} {a : Mat} {D : Dendro α} {π πinv : Nat → Nat} (degree normalized : Bool)
+    (hp : SkNet.WL.IsPerm n π πinv) (hn : 2 ≤ n) (hsq : Square n a) (hnn : ∀ i j, 0 ≤ a.get i j)
+    (htot : 0 < a.total) (hv : ValidDendro n D = true) :
+    ValidDendro n (relabelDendro n π D) = true ∧
+    dasguptaCost degree normalized n (relabelMat n πinv a) (relabelDendro n π D) =
+      dasguptaCost degree normalized n a D ∧
+    dasguptaScore degree n (relabelMat n πinv a) (relabelDendro n π D) = dasguptaScore degree n a D := by
+  have hv' := relabel_valid hp hv
+  have hsq' := relabelMat_square n πinv a
+  have htot' : (relabelMat n πinv a).total = a.total :=
+    total_relabel hp hsq hsq' (fun u v hu hv => relabelMat_get_perm hp a hu hv)
+  have hnn' : ∀ i j, 0 ≤ (relabelMat n πinv a).get i j := by
+    intro i j
+    rw [relabelMat_get]
+    split
+    · exact hnn _ _
+    · exact le_refl _
+  have hcost : ∀ nz : Bool, dasguptaCost degree nz n (relabelMat n πinv a) (relabelDendro n π D) =
+      dasguptaCost degree nz n a D := by
+    intro nz
+    rw [dasgupta_eq_def degree nz hn hsq' hnn' (by rw [htot']; exact htot) hv',
+      dasgupta_eq_def degree nz hn hsq hnn htot hv]
+    unfold dasguptaDefCost
+    rw [dasguptaDef_relabel hp degree hsq hv, htot']
+  refine ⟨hv', hcost normalized, ?_⟩
+  unfold dasguptaScore
+  rw [hcost true]
+
+/-- non-vacuity: the weighted triangle above renumbered by the cycle 0→1→2→0; the cost is again 5/6 -/
+example : SkNet.WL.IsPerm 3 (fun i => (i + 1) % 3) (fun i => (i + 2) % 3) ∧
+    (dasguptaCost false true 3 (relabelMat 3 (fun i => (i + 2) % 3) [[0, 2, 1], [2, 0, 3], [1, 3, 0]])
+      (relabelDendro 3 (fun i => (i + 1) % 3) ([⟨1, 2, 1, 2⟩, ⟨3, 0, 2, 3⟩] : Dendro Nat))).toOption = some (5 / 6) ∧
+    relabelDendro 3 (fun i => (i + 1) % 3) ([⟨1, 2, 1, 2⟩, ⟨3, 0, 2, 3⟩] : Dendro Nat) =
+      [⟨2, 0, 1, 2⟩, ⟨3, 1, 2, 3⟩] := by
+  refine ⟨⟨by decide, by decide, by decide, by decide⟩, by decide +kernel, by decide⟩
+
 end dasgupta
+
 
 
 end SkNet.C08
